@@ -369,6 +369,28 @@ theorem answers_depend_on_multiset (tbl : PTable) (docs docs' : List Rec) (hp : 
       r.map OpMetrics.core = r'.map OpMetrics.core) :=
   ⟨fun _ _ _ hk h h' => evalQ_perm hp hk h h', fun sched _ _ h h' => calcE_normal_only sched h h' (hp.filter _)⟩
 
+/-! ## 7d. the race store directory over time: `store_race` / `find_by_race_id` / `list` on one directory -/
+
+/-- **race_dir_holds_last_document**: after any history of `store_race` calls (any ids, the same id any number of
+    times, documents growing or shrinking), finds and lists on one directory, `find_by_race_id(id)` yields exactly
+    the document stored LAST for `id` (NotFound iff none was stored); the answer given in the middle of a history
+    depends on the stores before it only -/
+theorem race_dir_holds_last_document (pre post : List REv) (id : Str) :
+    dirFind (dirAfter [] pre) id = lastStored pre id ∧
+    raceRun [] (pre ++ REv.find id :: post) =
+      raceRun [] pre ++ (match lastStored pre id with | some d => RAns.found d | none => RAns.notFound) ::
+        raceRun (dirAfter [] pre) post := by
+  refine ⟨dirFind_after pre id, ?_⟩
+  rw [raceRun_append, raceRun_cons, ← dirFind_after]
+  rfl
+
+/-- **race_list_shows_last_documents**: every race `list()` shows is the last document of its id, no id twice, and
+    with `max_results` at least the number of ids every stored id is shown -/
+theorem race_list_shows_last_documents (h : List REv) (max : Nat) :
+    (∀ id d, (id, d) ∈ dirList (dirAfter [] h) max → lastStored h id = some d) ∧
+    ((dirAfter [] h).length ≤ max → ∀ id d, lastStored h id = some d → (id, d) ∈ dirList (dirAfter [] h) max) ∧
+    ((dirList (dirAfter [] h) max).map Prod.fst).Nodup := dirList_after h max
+
 /-! ## 8. throughput summary -/
 
 /-- **summary_agrees_with_raw**: whenever normal samples exist, `summary_stats` reports min / mean / median / max
@@ -440,6 +462,9 @@ example : (exRecs.filter isNormal).length = 2 ∧ (exRecs.filter (errSel ['t'] (
 example : delivered [.put exRecs[0], .query (.duration ['t']), .bulk [exRecs[1], exRecs[2]], .handover false (.duration ['t'])] = exRecs ∧
     delivered [.put exRecs[0], .handover true (.duration ['t']), .bulk [exRecs[1]], .query (.duration ['t'])] = [exRecs[1]] := by
   constructor <;> rfl
+example : raceRun [] [.store ['a'] ⟨5, 0⟩, .store ['b'] ⟨7, 1⟩, .store ['a'] ⟨3, 2⟩, .find ['a'], .find ['c'], .store ['a'] ⟨9, 0⟩, .find ['a']] =
+    [.found ⟨3, 2⟩, .notFound, .found ⟨9, 0⟩] ∧
+    lastStored [.store ['a'] ⟨5, 0⟩, .store ['b'] ⟨7, 1⟩, .store ['a'] ⟨3, 2⟩] ['a'] = some ⟨3, 2⟩ := by decide +kernel
 /-- two tasks share the operation `term`; the explicitly named one comes first, the other keeps the default name -/
 example :
     let r1 : Dict := [(sTask, .str ['w']), (sOperation, .str ['t', 'e', 'r', 'm']), (sErrorRate, .flt 1)]
